@@ -207,19 +207,19 @@ type Anchors struct {
 	M   *core.Model
 	Eff *core.Effects
 
-	LockTests map[*core.Func]bool // bool-returning, store-free functions that read lock.locks
-	Acquire   map[*core.Func]bool // set a bit of lock.locks and return the token
-	Release   map[*core.Func]bool // clear a bit of lock.locks
-	AliveTest map[*core.Func]bool // compare Entity.gen against the pool, return bool, no stores
-	PoolGet   map[*core.Func]bool
+	LockTests   map[*core.Func]bool // bool-returning, store-free functions that read lock.locks
+	Acquire     map[*core.Func]bool // set a bit of lock.locks and return the token
+	Release     map[*core.Func]bool // clear a bit of lock.locks
+	AliveTest   map[*core.Func]bool // compare Entity.gen against the pool, return bool, no stores
+	PoolGet     map[*core.Func]bool
 	PoolRecycle map[*core.Func]bool
-	Fire      map[*core.Func]bool // call observerData.callback
+	Fire        map[*core.Func]bool // call observerData.callback
 
 	Missing []string // unresolved anchors
 	// Unclassified lists fields of anchored structs that the anchor table does not know (added after it was frozen).
 	Unclassified []string
-	mentions map[*core.Func]map[string]bool
-	wrappers map[*core.Func]*core.Func
+	mentions     map[*core.Func]map[string]bool
+	wrappers     map[*core.Func]*core.Func
 }
 
 var anchorCache = map[*core.Model]*Anchors{}
@@ -397,21 +397,49 @@ func (a *Anchors) deriveRoles() {
 			}
 		}
 	}
-	// wrappers: a function with the same signature shape that only forwards to an acquire/release role
+	// wrappers: a function with the same signature shape that on every normal path passes exactly one call of an
+	// acquire/release role (and for release hands it its own token parameter). Statements around the call (mutex
+	// operations, the unbalanced-unlock assertion) do not change the role.
+	roleCalls := func(f *core.Func, set map[*core.Func]bool) []*ast.CallExpr {
+		var out []*ast.CallExpr
+		core.InspectNoLits(f.Body, func(n ast.Node) bool {
+			if call, ok := n.(*ast.CallExpr); ok {
+				if k, cal, _ := m.Callee(call); k == core.CallStatic && set[cal] {
+					out = append(out, call)
+				}
+			}
+			return true
+		})
+		return out
+	}
 	for changed := true; changed; {
 		changed = false
 		for _, f := range m.Funcs {
-			if a.Acquire[f] || a.Release[f] {
+			if a.Acquire[f] || a.Release[f] || f.Sig == nil || f.Body == nil {
 				continue
 			}
-			if cal := soleForward(m, f); cal != nil {
-				if a.Acquire[cal] && f.Sig.Results().Len() == 1 && f.Sig.Params().Len() == 0 {
-					a.Acquire[f] = true
-					changed = true
+			if f.Sig.Results().Len() == 1 && f.Sig.Params().Len() == 0 && isInt(f.Sig.Results().At(0).Type()) {
+				if calls := roleCalls(f, a.Acquire); len(calls) == 1 && len(roleCalls(f, a.Release)) == 0 {
+					call := calls[0]
+					if passedOnAllPaths(m, f, func(n ast.Node) bool { return n == ast.Node(call) }) && returnsValueOf(m, f, call) {
+						a.Acquire[f] = true
+						changed = true
+					}
 				}
-				if a.Release[cal] && f.Sig.Results().Len() == 0 && f.Sig.Params().Len() == 1 {
-					a.Release[f] = true
-					changed = true
+			}
+			if f.Sig.Results().Len() == 0 && f.Sig.Params().Len() == 1 && isInt(f.Sig.Params().At(0).Type()) {
+				if calls := roleCalls(f, a.Release); len(calls) == 1 && len(roleCalls(f, a.Acquire)) == 0 {
+					call := calls[0]
+					argIsParam := false
+					if len(call.Args) == 1 {
+						if id, ok := ast.Unparen(call.Args[0]).(*ast.Ident); ok && m.Info.ObjectOf(id) == f.Sig.Params().At(0) {
+							argIsParam = true
+						}
+					}
+					if argIsParam && passedOnAllPaths(m, f, func(n ast.Node) bool { return n == ast.Node(call) }) {
+						a.Release[f] = true
+						changed = true
+					}
 				}
 			}
 		}
@@ -436,6 +464,37 @@ func (a *Anchors) deriveRoles() {
 			a.PoolGet[f] = true
 		}
 	}
+}
+
+// returnsValueOf: every return statement of f returns the result of call (directly or through a single-definition local).
+func returnsValueOf(m *core.Model, f *core.Func, call *ast.CallExpr) bool {
+	ok, n := true, 0
+	core.InspectNoLits(f.Body, func(x ast.Node) bool {
+		rs, isR := x.(*ast.ReturnStmt)
+		if !isR {
+			return true
+		}
+		n++
+		if len(rs.Results) != 1 {
+			ok = false
+			return true
+		}
+		e := ast.Unparen(rs.Results[0])
+		if e == ast.Expr(call) {
+			return true
+		}
+		if id, isID := e.(*ast.Ident); isID {
+			if v, isV := m.Info.ObjectOf(id).(*types.Var); isV {
+				defs := localDefsOf(m, f, v)
+				if len(defs) == 1 && ast.Unparen(defs[0]) == ast.Expr(call) {
+					return true
+				}
+			}
+		}
+		ok = false
+		return true
+	})
+	return ok && n > 0
 }
 
 // soleForward returns the callee if the body of f is a single statement that calls (or returns the call of) one static function.
